@@ -1,6 +1,6 @@
 (* C11: accepted programs keep their static promises; rule-breaking ones are rejected (on the calculus EffVy). *)
 From Coq Require Import ZArith Bool List.
-From Verif Require Import C11.Effects C11.EffectsSound C11.EffectsPure C11.EffectsReject C11.EffectsTerm.
+From Verif Require Import C11.Effects C11.EffectsSound C11.EffectsPure C11.EffectsReject C11.EffectsTerm C11.EffectsIter.
 Import ListNotations.
 Open Scope Z_scope.
 
@@ -74,23 +74,46 @@ Proof. exact reject_recursion. Qed.
 Print Assumptions reject_complete_expr.
 Print Assumptions reject_complete_recursion.
 
+(* iterator rules: semantic statement and rejection through internal calls *)
+Theorem iterator_not_modified : forall p g i k x len b, check p = true -> In g (funs p) ->
+  subs (SForList i k x len b) (fbody g) -> is_state k = true ->
+  forall n w fr o w' fr' t, exec n p w fr (SForList i k x len b) = Done (o, w', fr', t) -> ~ In (Write k x) t.
+Proof. exact iterator_not_modified_lemma. Qed.
+Print Assumptions iterator_not_modified.
+Theorem reject_complete_iterator_via_call : forall p g i k x n b s e0 f a,
+  In g (funs p) -> subs (SForList i k x n b) (fbody g) -> subs s b -> top_expr e0 s -> sube (ECall f a) e0 ->
+  In (k, x) (fwrites (length (funs p)) p f) -> check p = false.
+Proof. exact reject_iterator_mutation_via_call. Qed.
+(* module rules *)
+Theorem reject_complete_lib_state : forall p g s e0 k x,
+  In g (funs p) -> flib g = false -> owns p = NoOwn -> lib_var k x = true ->
+  subs s (fbody g) -> (top_expr e0 s /\ sube (EVar k x) e0 \/ (exists e, s = SAssign k x e \/ s = SAug k x e)) ->
+  check p = false.
+Proof. exact reject_lib_state_access. Qed.
+Theorem reject_complete_lib_call : forall p g f,
+  In g (funs p) -> flib g = false -> owns p = NoOwn -> In f (callees_s (fbody g)) ->
+  fuses (length (funs p)) p f = true -> check p = false.
+Proof. exact reject_lib_stateful_call. Qed.
+Theorem reject_complete_uses_only : forall p, owns p = Uses -> check p = false.
+Proof. exact reject_uses_without_initializes. Qed.
+
 (* non-vacuity: an accepted program with a view function calling a pure one through a bounded loop;
    and a one-rule mutation of it that is rejected *)
-Definition f_pure := mk_fn Pure Internal (SReturn (EBin (EVar VArg 0) (EVar VConst 0))).
-Definition f_view := mk_fn View External
+Definition f_pure := mk_fn Pure Internal false (SReturn (EBin (EVar VArg 0) (EVar VConst 0))).
+Definition f_view := mk_fn View External false
   (SSeq (SAssign VLocal 0 (ELit 0))
   (SSeq (SFor 0 (RBound (EVar VArg 0) 5) (SAug VLocal 0 (EBin (ECall 0 (EVar VLoop 0)) (EVar VStorage 1))))
         (SReturn (EVar VLocal 0)))).
-Definition f_write := mk_fn NonPay External (SSeq (SAssign VStorage 1 (EVar VArg 0)) (SLog (EVar VArg 0))).
-Definition p_ok := mk_prog [f_pure; f_view; f_write] (fun _ => 7).
-Definition f_view_bad := mk_fn View External (SIf (EVar VArg 0) (SAssign VStorage 1 (ELit 1)) SSkip).
+Definition f_write := mk_fn NonPay External false (SSeq (SAssign VStorage 1 (EVar VArg 0)) (SLog (EVar VArg 0))).
+Definition p_ok := mk_prog [f_pure; f_view; f_write] (fun _ => 7) NoOwn.
+Definition f_view_bad := mk_fn View External false (SIf (EVar VArg 0) (SAssign VStorage 1 (ELit 1)) SSkip).
 Definition w0 := mk_world (fun _ => 3) (fun _ => 0) (fun _ => 0) (fun _ => 0) (fun _ => 0) 0
                           (fun x => x) (fun _ x => x) (fun s x => (s, x)).
 Example effects_nonvacuous :
   check p_ok = true /\
   (exists w' fr' t, exec 50 p_ok w0 (mk_frame (fun _ => 0) 2 (fun _ => 0)) (fbody f_view) = Done (Returned 21, w', fr', t)) /\
-  check (mk_prog [f_pure; f_view_bad; f_write] (fun _ => 7)) = false /\
-  check (mk_prog [mk_fn View Internal (SReturn (ECall 0 (ELit 1)))] (fun _ => 0)) = false.
+  check (mk_prog [f_pure; f_view_bad; f_write] (fun _ => 7) NoOwn) = false /\
+  check (mk_prog [mk_fn View Internal false (SReturn (ECall 0 (ELit 1)))] (fun _ => 0) NoOwn) = false.
 Proof. repeat split; try (vm_compute; reflexivity). eexists. eexists. eexists. vm_compute. reflexivity. Qed.
 Example termination_nonvacuous :
   fuel_bound p_ok = 9%nat /\ ib_f 3 p_ok 1 = 5%nat /\
